@@ -297,12 +297,22 @@ def run_scheduler(spec):
                        "before": before, "state": snapshot_scheduler(sch, cache)})
         return d
 
+    def next_is_resume():
+        """would the next job be the resumption of a paused trial? (read off the real manager)"""
+        for b in range(mgr._primary_bracket_id, len(mgr._brackets)):
+            br = mgr._brackets[b]
+            if not br.is_bracket_complete():
+                rung, _ = br._current_rung_and_level()
+                if br._first_free_pos < len(rung):
+                    return rung[br._first_free_pos][0] is not None
+        return False
+
     n_events = 0
     next_options = None
     while n_events < spec["max_events"]:
         n_events += 1
         options = []
-        if len(jobs) < spec["n_workers"] and next_id < spec.get("max_trials", 10 ** 9):
+        if len(jobs) < spec["n_workers"] and (next_id < spec.get("max_trials", 10 ** 9) or next_is_resume()):
             options += ["suggest"] * (1 if script is not None else 2)
         if jobs:
             if script is not None:
